@@ -168,6 +168,9 @@ func runC28(c *Ctx) {
 				continue
 			}
 			c.Report(gf, key+" flows into the hash", gf.Pos(), read[f.Name()], "field is not read by "+g.Name()+"() or the own methods it calls")
+			if read[f.Name()] && f.Embedded() {
+				c.embeddedFlow(gf, t, f, key, g.Name(), 0)
+			}
 		}
 		// every component of a pair-valued field is hashed; no field is replaced by a constant on some path
 		for _, fn := range c.ownClosure(t, gf) {
@@ -520,4 +523,45 @@ func firstNonPhi(b *ssa.BasicBlock) ssa.Instruction {
 		}
 	}
 	return b.Instrs[0]
+}
+
+// embeddedFlow: an embedded struct part that the hash generator of outer reads must itself flow
+// into the hash field by field (the generator, or the methods it calls on the part, read each of
+// its fields) — unless the part has its own hash generator that the outer generator calls (then
+// the part is covered where it is declared).
+func (c *Ctx) embeddedFlow(gf *ssa.Function, outer *types.Named, f *types.Var, label, gname string, depth int) {
+	en, ok := derefNamed(f.Type()).(*types.Named)
+	if !ok || depth > 2 || en.Obj().Pkg() == nil || !c.inTree(en.Obj().Pkg()) {
+		return
+	}
+	est, ok := en.Underlying().(*types.Struct)
+	if !ok {
+		return
+	}
+	fns := c.ownClosure(outer, gf)
+	if eg, _ := hashGen(en); eg != nil {
+		if egf := c.ssaOf(eg); egf != nil {
+			for _, fn := range fns {
+				if fn == egf {
+					return // the part's own generator runs: covered at the part
+				}
+			}
+		}
+	}
+	read, _ := c.fieldUse(en, fns)
+	for i := 0; i < est.NumFields(); i++ {
+		sf := est.Field(i)
+		key := label + "." + sf.Name()
+		if why, ex := hashExempt[key]; ex {
+			c.Report(gf, key+" is deliberately outside the hash", gf.Pos(), true, why)
+			continue
+		}
+		if isHashItself(sf) {
+			continue
+		}
+		c.Report(gf, key+" flows into the hash", gf.Pos(), read[sf.Name()], "field of the embedded part is not read by "+gname+"() or the methods it calls")
+		if read[sf.Name()] && sf.Embedded() {
+			c.embeddedFlow(gf, outer, sf, key, gname, depth+1)
+		}
+	}
 }
